@@ -685,7 +685,7 @@ class SequenceConverter(t.Generic[FromDataT], Converter[t.Sequence[FromDataT]]):
         """See [`Converter.into_data`][pane.converters.Converter.into_data]"""
         # construct tuple from a tuple, or a list otherwise
         constructor = t.cast(t.Callable[[t.Iterable[t.Any]], t.Sequence[t.Any]], tuple if self.constructor is tuple else list)
-        if self.ty in (t.Any, type(t.Any)):
+        if isinstance(self.v_conv, AnyConverter):
             # also need to infer member types
             return constructor(
                 make_converter(type(v), self.handlers).into_data(v)
